@@ -1,7 +1,283 @@
-/- line-protocol handler for model "auth" (stub until its model is built) -/
+/- line-protocol handler for model "auth" (see harness/inproc/h_auth.c for the protocol).
+   The model's external functions are instantiated here: H = MD5 (written out below;
+   the correspondence run compares it with the C implementation on every digest),
+   cache key = the same djb2a-based stand-in the harness installs. -/
+import LtVerif.Model.Auth
 namespace Driver
+open LtVerif LtVerif.B LtVerif.Auth
+
+/-! ### MD5 (RFC 1321) -/
+
+def md5K : Array UInt32 := #[
+    0xd76aa478, 0xe8c7b756, 0x242070db, 0xc1bdceee, 0xf57c0faf, 0x4787c62a, 0xa8304613, 0xfd469501,
+    0x698098d8, 0x8b44f7af, 0xffff5bb1, 0x895cd7be, 0x6b901122, 0xfd987193, 0xa679438e, 0x49b40821,
+    0xf61e2562, 0xc040b340, 0x265e5a51, 0xe9b6c7aa, 0xd62f105d, 0x02441453, 0xd8a1e681, 0xe7d3fbc8,
+    0x21e1cde6, 0xc33707d6, 0xf4d50d87, 0x455a14ed, 0xa9e3e905, 0xfcefa3f8, 0x676f02d9, 0x8d2a4c8a,
+    0xfffa3942, 0x8771f681, 0x6d9d6122, 0xfde5380c, 0xa4beea44, 0x4bdecfa9, 0xf6bb4b60, 0xbebfbc70,
+    0x289b7ec6, 0xeaa127fa, 0xd4ef3085, 0x04881d05, 0xd9d4d039, 0xe6db99e5, 0x1fa27cf8, 0xc4ac5665,
+    0xf4292244, 0x432aff97, 0xab9423a7, 0xfc93a039, 0x655b59c3, 0x8f0ccc92, 0xffeff47d, 0x85845dd1,
+    0x6fa87e4f, 0xfe2ce6e0, 0xa3014314, 0x4e0811a1, 0xf7537e82, 0xbd3af235, 0x2ad7d2bb, 0xeb86d391]
+
+def md5S : Array UInt32 := #[
+    7, 12, 17, 22, 7, 12, 17, 22, 7, 12, 17, 22, 7, 12, 17, 22,
+    5, 9, 14, 20, 5, 9, 14, 20, 5, 9, 14, 20, 5, 9, 14, 20,
+    4, 11, 16, 23, 4, 11, 16, 23, 4, 11, 16, 23, 4, 11, 16, 23,
+    6, 10, 15, 21, 6, 10, 15, 21, 6, 10, 15, 21, 6, 10, 15, 21]
+
+@[inline] def rotl32 (x s : UInt32) : UInt32 := (x <<< s) ||| (x >>> (32 - s))
+
+def md5Block (m : Array UInt32) (st : UInt32 × UInt32 × UInt32 × UInt32) : UInt32 × UInt32 × UInt32 × UInt32 :=
+  let (a0, b0, c0, d0) := st
+  let r := (List.range 64).foldl (fun (acc : UInt32 × UInt32 × UInt32 × UInt32) i =>
+    let (a, b, c, d) := acc
+    let (f, g) : UInt32 × Nat :=
+      if i < 16 then ((b &&& c) ||| ((~~~b) &&& d), i)
+      else if i < 32 then ((d &&& b) ||| ((~~~d) &&& c), (5 * i + 1) % 16)
+      else if i < 48 then (b ^^^ c ^^^ d, (3 * i + 5) % 16)
+      else (c ^^^ (b ||| (~~~d)), (7 * i) % 16)
+    let f' := f + a + md5K[i]! + m[g]!
+    (d, b + rotl32 f' md5S[i]!, b, c)) (a0, b0, c0, d0)
+  (a0 + r.1, b0 + r.2.1, c0 + r.2.2.1, d0 + r.2.2.2)
+
+def le32 (x : UInt32) : Bytes :=
+  [x.toUInt8, (x >>> 8).toUInt8, (x >>> 16).toUInt8, (x >>> 24).toUInt8]
+
+def md5 (msg : Bytes) : Bytes :=
+  let ml := msg.length
+  let padLen := (55 + 64 - ml % 64) % 64
+  let bits := ml * 8
+  let padded : Array UInt8 :=
+    (msg ++ 0x80 :: List.replicate padLen 0 ++ leBytes 8 bits).toArray
+  let nblk := padded.size / 64
+  let st := (List.range nblk).foldl (fun st bi =>
+    let m : Array UInt32 := (Array.range 16).map fun j =>
+      let o := bi * 64 + j * 4
+      (padded[o]!).toUInt32 ||| ((padded[o+1]!).toUInt32 <<< 8)
+        ||| ((padded[o+2]!).toUInt32 <<< 16) ||| ((padded[o+3]!).toUInt32 <<< 24)
+    md5Block m st) ((0x67452301 : UInt32), (0xefcdab89 : UInt32), (0x98badcfe : UInt32), (0x10325476 : UInt32))
+  le32 st.1 ++ le32 st.2.1 ++ le32 st.2.2.1 ++ le32 st.2.2.2
+
+/-! ### SHA-1 (htpasswd "{SHA}" records) -/
+
+def be32 (x : UInt32) : Bytes :=
+  [(x >>> 24).toUInt8, (x >>> 16).toUInt8, (x >>> 8).toUInt8, x.toUInt8]
+
+def sha1Block (w0 : Array UInt32) (st : UInt32 × UInt32 × UInt32 × UInt32 × UInt32) :
+    UInt32 × UInt32 × UInt32 × UInt32 × UInt32 :=
+  let w := (List.range 64).foldl (fun (w : Array UInt32) j =>
+    let i := j + 16
+    w.push (rotl32 (w[i-3]! ^^^ w[i-8]! ^^^ w[i-14]! ^^^ w[i-16]!) 1)) w0
+  let (h0, h1, h2, h3, h4) := st
+  let r := (List.range 80).foldl (fun (acc : UInt32 × UInt32 × UInt32 × UInt32 × UInt32) i =>
+    let (a, b, c, d, e) := acc
+    let (f, k) : UInt32 × UInt32 :=
+      if i < 20 then ((b &&& c) ||| ((~~~b) &&& d), 0x5A827999)
+      else if i < 40 then (b ^^^ c ^^^ d, 0x6ED9EBA1)
+      else if i < 60 then ((b &&& c) ||| (b &&& d) ||| (c &&& d), 0x8F1BBCDC)
+      else (b ^^^ c ^^^ d, 0xCA62C1D6)
+    let t := rotl32 a 5 + f + e + k + w[i]!
+    (t, a, rotl32 b 30, c, d)) (h0, h1, h2, h3, h4)
+  (h0 + r.1, h1 + r.2.1, h2 + r.2.2.1, h3 + r.2.2.2.1, h4 + r.2.2.2.2)
+
+def sha1 (msg : Bytes) : Bytes :=
+  let ml := msg.length
+  let padLen := (55 + 64 - ml % 64) % 64
+  let padded : Array UInt8 :=
+    (msg ++ 0x80 :: List.replicate padLen 0 ++ (leBytes 8 (ml * 8)).reverse).toArray
+  let nblk := padded.size / 64
+  let st := (List.range nblk).foldl (fun st bi =>
+    let w : Array UInt32 := (Array.range 16).map fun j =>
+      let o := bi * 64 + j * 4
+      ((padded[o]!).toUInt32 <<< 24) ||| ((padded[o+1]!).toUInt32 <<< 16)
+        ||| ((padded[o+2]!).toUInt32 <<< 8) ||| (padded[o+3]!).toUInt32
+    sha1Block w st)
+    ((0x67452301 : UInt32), (0xEFCDAB89 : UInt32), (0x98BADCFE : UInt32), (0x10325476 : UInt32), (0xC3D2E1F0 : UInt32))
+  be32 st.1 ++ be32 st.2.1 ++ be32 st.2.2.1 ++ be32 st.2.2.2.1 ++ be32 st.2.2.2.2
+
+/-- htpasswd records this driver can verify: "{SHA}" + base64(SHA1(pw)); "$apr1$" and crypt(3)
+    records are not generated by the check -/
+def cryptVerify (stored pw : Bytes) : Bool :=
+  if (ofString "{SHA}").isPrefixOf stored then base64Dec (stored.drop 5) = sha1 pw else false
+
+/-! ### cache key stand-in (see ltv_djbhash in h_auth.c) -/
+
+def djb (s : Bytes) (h : UInt32) : UInt32 := s.foldl (fun h b => ((h <<< 5) + h) ^^^ b.toUInt32) h
+
+def cacheKey (hsel : String) (hmod : Nat) (rules : List Rule) (ridx : Nat) (user : Bytes) : Int :=
+  let sel : Nat := if hsel = "r" then ridx else
+    match rules[ridx]? with
+    | some r => if r.scheme = .basic then 0 else 1
+    | none => 0
+  let h0 := djb (sel.toUInt8 :: List.replicate 7 0) 5381
+  let h := djb user h0
+  let h : Nat := if hmod = 0 then h.toNat else h.toNat % hmod
+  if h < 2 ^ 31 then (h : Int) else (h : Int) - 2 ^ 32
+
+/-! ### parsing the case line -/
+
+def splitComma (s : String) : List String := s.splitOn ","
+
+def parseInt (s : String) : Option Int := s.toInt?
+
+def hexOpt (s : String) : Option (Option Bytes) :=
+  if s = "~" then some none else (ofHex s).map some
+
+def parseRule (prev : List Rule) (s : String) : Option (Option Rule) :=   -- none: bad-op; some none: cfg-error
+  match splitComma s with
+  | [pfx, sch, realm, algo, sec, uh, rq] =>
+    match ofHex pfx, ofHex realm, algo.toNat?, hexOpt sec, uh.toNat?, ofHex rq with
+    | some pfx, some realm, some algo, some sec, some uh, some rq =>
+      let scheme := if sch = "b" then Scheme.basic else Scheme.digest
+      if prev.any (fun r => r.pfx = pfx) then
+        -- duplicate path: array_insert_unique() drops it (never matched, never parsed)
+        some (some { pfx := pfx, scheme := scheme, realm := realm, algorithm := algo, secret := sec,
+                     userhash := uh ≠ 0, req := {} })
+      else
+        match requireParse rq with
+        | none => some none
+        | some r => some (some { pfx := pfx, scheme := scheme, realm := realm, algorithm := algo,
+                                 secret := sec, userhash := uh ≠ 0, req := r })
+    | _, _, _, _, _, _ => none
+  | _ => none
+
+def parseRules : Nat → List String → List Rule → Option (Option (List Rule) × List String)
+  | 0, rest, acc => some (some acc, rest)
+  | _ + 1, [], _ => none
+  | n + 1, t :: rest, acc =>
+    match parseRule acc t with
+    | none => none
+    | some none => some (none, rest)
+    | some (some r) => parseRules n rest (acc ++ [r])
+
+def str (s : String) : Bytes := ofString s
+
+/-! ### rendering -/
+
+def intStr (i : Int) : String := toString i
+
+def renderEntry (p : Int × Entry) : String :=
+  let e := p.2
+  "k=" ++ intStr p.1 ++ ",r=" ++ toString e.rule ++ ",u=" ++ toHex e.username ++ ",kk=" ++
+  (if e.kIsUser then "=" else toHex e.k) ++ ",a=" ++ toString e.dalgo ++ ",t=" ++ intStr e.ctime ++
+  ",d=" ++ toHex e.pw
+
+def insertSorted (p : Int × Entry) : List (Int × Entry) → List (Int × Entry)
+  | [] => [p]
+  | q :: qs => if p.1 ≤ q.1 then p :: q :: qs else q :: insertSorted p qs
+
+def renderCache (c : Cache) : String :=
+  "[" ++ String.intercalate ";" ((c.foldr insertSorted []).map renderEntry) ++ "]"
+
+def asString (b : Bytes) : String := String.ofList (b.map fun x => Char.ofNat x.toNat)
+
+def epochHex (st : St) : String := asString (hexLcEven (st.epoch % 2 ^ 64).toNat)
+
+def kaStr (ka : Bool) : String := if ka then ":ka1" else ":ka-1"
+
+def renderOutcome (rule : Option Rule) (st : St) : Outcome → String
+  | .pass => "pass"
+  | .go u dig nn => "go:" ++ toHex u ++ (if dig then ":Digest" else ":Basic") ++ ":ka1" ++
+      (if nn then ":nn" ++ epochHex st else "")
+  | .s401b ka =>
+    let realm := match rule with | some r => r.realm | none => []
+    "401:B:" ++ toHex (str "Basic realm=\"" ++ realm ++ str "\", charset=\"UTF-8\"") ++ kaStr ka
+  | .s401d stale ka =>
+    match rule with
+    | none => "401:-"
+    | some r =>
+      let algos := if stale ≠ 0 then stale else r.algorithm
+      let ch := if algos &&& 2 ≠ 0 then
+          toHex r.realm ++ "/MD5/" ++ epochHex st ++ "/" ++ (if r.secret.isSome then "3" else "2") ++ ".32/q1u" ++
+          (if r.userhash then "1" else "0") ++ "s" ++ (if stale ≠ 0 then "1" else "0")
+        else "?none"
+      "401:D:" ++ ch ++ kaStr ka
+  | .s400 => "400"
+  | .s500 => "500"
+
+/-! ### running a scenario -/
+
+def methodOk (m : String) : Bool :=
+  ["GET", "HEAD", "POST", "PUT", "DELETE", "CONNECT", "OPTIONS", "TRACE", "PATCH", "PROPFIND"].contains m
+
+def runOps (P : Prims) (cfg : Cfg) : St → List String → List String → List String
+  | _, [], acc => acc.reverse
+  | st, t :: rest, acc =>
+    match splitComma t with
+    | ["q", m, tgt, path, hdr, h2] =>
+      match ofHex tgt, ofHex path, hexOpt hdr with
+      | some tgt, some path, some hdr =>
+        if !methodOk m then runOps P cfg st rest ("bad-op" :: acc) else
+        let req : Req := { method := str m, target := tgt, path := path, auth := hdr, h2ext := h2 ≠ "0" }
+        let r := handle P cfg st req
+        let rule := (findRule cfg.rules path 0).map (·.2)
+        -- challenges are rendered with the clock of the request
+        runOps P cfg r.1 rest ((renderOutcome rule st r.2 ++ "|" ++ renderCache r.1.cache) :: acc)
+      | _, _, _ => runOps P cfg st rest ("bad-op" :: acc)
+    | ["a", dt] =>
+      match dt.toNat? with
+      | some dt =>
+        let st' := advance cfg dt st
+        runOps P cfg st' rest (("t" ++ renderCache st'.cache) :: acc)
+      | none => runOps P cfg st rest ("bad-op" :: acc)
+    | ["e", de] =>
+      match parseInt de with
+      | some de => runOps P cfg { st with epoch := st.epoch + de } rest ("e" :: acc)
+      | none => runOps P cfg st rest ("bad-op" :: acc)
+    | ["n", ri, ts, rnd, _dalgo] =>
+      match ri.toNat?, parseInt ts, rnd.toNat? with
+      | some ri, some ts, some rnd =>
+        match cfg.rules[ri]? with
+        | some r =>
+          if (cfg.rules.take ri).any (fun r' => r'.pfx = r.pfx) then runOps P cfg st rest ("bad-op" :: acc)
+          else runOps P cfg st rest (toHex (appendNonce P ts r.secret (rnd % 2 ^ 32)) :: acc)
+        | none => runOps P cfg st rest ("bad-op" :: acc)
+      | _, _, _ => runOps P cfg st rest ("bad-op" :: acc)
+    | _ => runOps P cfg st rest ("bad-op" :: acc)
+
+def renderParams (dp : Params) : String :=
+  let f (n : String) (v : Option Bytes) : String := n ++ "=" ++ (match v with | some b => toHex b | none => "~")
+  String.intercalate " " [f "username" dp.username, f "realm" dp.realm, f "nonce" dp.nonce, f "uri" dp.uri,
+    f "algorithm" dp.algorithm, f "qop" dp.qop, f "cnonce" dp.cnonce, f "nc" dp.nc, f "response" dp.response,
+    f "username*" dp.userstar, f "userhash" dp.userhash]
 
 def authLine : List String → String
+  | ["parse", h] =>
+    match ofHex h with
+    | some b => renderParams (parseAuthorization b)
+    | none => "bad-op"
+  | ["b64", h] =>
+    match ofHex h with
+    | some b => let d := base64Dec b; if d.isEmpty then "0" else toHex d
+    | none => "bad-op"
+  | ["eqct", a, b] =>
+    match ofHex a, ofHex b with
+    | some a, some b =>
+      (if a = b then "1" else "0") ++ (if a.length = b.length then (if a = b then " 1" else " 0") else "")
+    | _, _ => "bad-op"
+  | ["algo", h] =>
+    match ofHex h with
+    | some b => (match algorithmParse b with | some (a, l) => toString a ++ " " ++ toString l | none => "0")
+    | none => "bad-op"
+  | "run" :: hsel :: hmod :: cache :: backend :: file :: mono0 :: epoch0 :: nrules :: rest =>
+    match hmod.toNat?, ofHex file, parseInt mono0, parseInt epoch0, nrules.toNat? with
+    | some hmod, some file, some mono0, some epoch0, some nrules =>
+      let cacheMaxAge : Option (Option Int) := if cache = "-" then some none else (parseInt cache).map some
+      let be : Option Backend :=
+        if backend = "plain" then some .plain else if backend = "htdigest" then some .htdigest
+        else if backend = "htpasswd" then some .htpasswd else if backend = "none" then some .none else none
+      match cacheMaxAge, be with
+      | some cacheMaxAge, some be =>
+        if nrules > 16 then "bad-op" else
+        match parseRules nrules rest [] with
+        | none => "bad-op"
+        | some (none, _) => "cfg-error"
+        | some (some rules, ops) =>
+          let cfg : Cfg := { rules := rules, backend := be, file := file, cacheMaxAge := cacheMaxAge }
+          let P : Prims := { H := md5, hash := cacheKey hsel hmod rules, crypt := cryptVerify }
+          let outs := runOps P cfg { mono := mono0, epoch := epoch0 } ops []
+          if outs.isEmpty then "-" else String.intercalate " " outs
+      | _, _ => if be.isNone then "bad-backend" else "bad-op"
+    | _, _, _, _, _ => "bad-op"
   | _ => "bad-op"
 
 end Driver
